@@ -52,6 +52,11 @@ typedef struct {
     uint32_t top_offset;            /* bytecode offset of loop top */
     Patch breaks[MAX_BREAKS];       /* break jump patches */
     int break_count;
+    /* `continue` in a for loop must reach the increment that follows the body
+     * (a forward jump, patched like `break`); in a while loop it jumps to the top. */
+    bool continue_forward;
+    Patch continues[MAX_BREAKS];
+    int continue_count;
 } LoopCtx;
 
 typedef struct {
@@ -2131,6 +2136,8 @@ static void compile_stmt(CG *cg, ASTNode *node) {
 
         LoopCtx *loop = &cg->loops[cg->loop_depth++];
         loop->break_count = 0;
+        loop->continue_forward = false;
+        loop->continue_count = 0;
         loop->top_offset = cg->code_size;
 
         compile_expr(cg, node->as.while_stmt.condition);
@@ -2189,6 +2196,8 @@ static void compile_stmt(CG *cg, ASTNode *node) {
 
         LoopCtx *loop = &cg->loops[cg->loop_depth++];
         loop->break_count = 0;
+        loop->continue_forward = false;
+        loop->continue_count = 0;
         loop->top_offset = cg->code_size;
 
         /* Check: idx < len */
@@ -2209,7 +2218,14 @@ static void compile_stmt(CG *cg, ASTNode *node) {
         emit_op(cg, OP_STORE_LOCAL, (int)var_slot);
 
         /* Compile body */
+        loop->continue_forward = true;
         compile_stmt(cg, node->as.for_stmt.body);
+
+        /* `continue` lands here, on the increment */
+        for (int i = 0; i < loop->continue_count; i++) {
+            patch_jump(cg, loop->continues[i].patch_offset,
+                       loop->continues[i].instr_offset, cg->code_size);
+        }
 
         /* Increment counter */
         emit_op(cg, OP_LOAD_LOCAL, (int)idx_slot);
@@ -2278,7 +2294,17 @@ static void compile_stmt(CG *cg, ASTNode *node) {
         LoopCtx *loop = &cg->loops[cg->loop_depth - 1];
         uint32_t jmp_instr = cg->code_size;
         emit_op(cg, OP_JMP, (int32_t)0);
-        patch_jump(cg, jmp_instr + 1, jmp_instr, loop->top_offset);
+        if (loop->continue_forward) {
+            if (loop->continue_count >= MAX_BREAKS) {
+                cg_error(cg, node->line, "too many continue statements in loop");
+                break;
+            }
+            loop->continues[loop->continue_count].patch_offset = jmp_instr + 1;
+            loop->continues[loop->continue_count].instr_offset = jmp_instr;
+            loop->continue_count++;
+        } else {
+            patch_jump(cg, jmp_instr + 1, jmp_instr, loop->top_offset);
+        }
         break;
     }
 
